@@ -141,7 +141,16 @@ class ConstEnv:
 
     def get(self, module: str, name: str) -> Any:
         env = self._module_env(module)
-        return env.get(name, TOP)
+        v = env.get(name, TOP)
+        depth = 0
+        while isinstance(v, _Lazy) and depth < 10:  # re-export chains
+            v = v.force()
+            depth += 1
+        if isinstance(v, _Lazy):
+            return TOP
+        if name in env and env[name] is not v:
+            env[name] = v
+        return v
 
     def need(self, module: str, name: str) -> Any:
         v = self.get(module, name)
